@@ -72,6 +72,17 @@ def rot_relations(rotation_matrix, axis, theta, rng):
     R2 = rotation_matrix(axis, th2)
     R12 = rotation_matrix(axis, theta + th2)
     Rs = rotation_matrix(axis * rng.choice([1e-3, 0.5, 7.0, 1e3]), theta)
+    rel = _rot_rel(R, Rm, R2, R12, Rs, n, theta)
+    # a returned matrix belongs to the caller: overwriting it in place must not affect any later result
+    for M in (R, Rm, R2, R12, Rs):
+        try:
+            M[...] = np.nan
+        except Exception:
+            pass
+    return rel
+
+
+def _rot_rel(R, Rm, R2, R12, Rs, n, theta):
     return dict(finite=True,
                 orth=bool(np.abs(R @ R.T - np.eye(3)).max() <= TOL),
                 det=bool(abs(np.linalg.det(R) - 1) <= TOL),
